@@ -169,7 +169,15 @@ async fn one(cx: &Cx, f: &[String]) -> String {
             if vh::run(&mut sh, &format!("a=({})", elems.join(" "))).await.is_err() {
                 return "SETUP-ERR".into();
             }
-            let idx = lit(&f[3]);
+            // inside a subscript a negative value is written `0-N` (a leading `-` is not accepted on the
+            // left of an assignment)
+            let idx = if f[3] == "-9223372036854775808" {
+                "0-9223372036854775807-1".to_string()
+            } else if let Some(n) = f[3].strip_prefix('-') {
+                format!("0-{n}")
+            } else {
+                f[3].clone()
+            };
             let head = match f[1].as_str() {
                 "get" => expand(&mut sh, &format!("\"${{a[{idx}]}}\"")).await,
                 "set" => match vh::run(&mut sh, &format!("a[{idx}]=v")).await {
